@@ -95,3 +95,50 @@ PROPS = {
         assumptions=["rig C: real CollectionReader and EtcdOp over SimEtcd; the channel manager is a recording stub, so 'no further effect of a second notification' is judged in the rig R / server checks, here only that notifications are not lost, not misattributed and never given for objects that were never created", "a watch is effective from the moment Watch() returns (registration lag is not injected)"],
     ),
 }
+
+S_REAL = 'rig S: the whole service in one bubble - real server.MetaCDC with its HTTP handler, meta stores, packer, write callback, reader (CollectionReader, ChannelReader, EtcdOp, replicateChannelManager, TargetClient) and writer (ChannelWriter, MilvusDataHandler); simulated source etcd, metadata etcd/MySQL, message queue + dispatcher, downstream Milvus behind the SDK client interface; one OS process per CDC incarnation, the world is carried over a crash in a state file.'
+
+PROPS.update({
+    "C10": dict(
+        rig="S", variants=["etcd", "mysql"], runs=dict(quick=1500, thorough=50000),
+        nontrivial_probes=["ownership_checked", "bookkeeping_checked", "rejected_request"],
+        must_hit=["ownership_checked", "bookkeeping_checked", "rejected_request", "restart"],
+        rule="Seeded operator sequences (4-14 create/pause/resume/delete/get/list requests over 2 downstreams, every specification shape db in {default form, default, dbx, *} x collection in {named, *}, name mappings, user-role flag, auto-start flag), store and downstream-query faults at any parked call, one crash+restart in half of the runs. After every answered request (at the next quiescent point) and after the reload: the stream selection (GetShouldReadFunc) and the DDL-message selection (GetCollectionInfos+MatchCollection) of every persisted task are evaluated over a 3x4 universe of (database, collection) names.",
+        assumptions=[S_REAL, "selection is evaluated through the exported pure functions on the persisted task records; the universe is {default, dbx, other} x {c1, c2, c3, zz}", "bookkeeping equality is judged as sets per downstream (names, exclusions, user-role owner) against what the persisted tasks imply"],
+    ),
+    "C11": dict(
+        rig="S", variants=["etcd", "mysql"], runs=dict(quick=1500, thorough=50000),
+        nontrivial_probes=["quiescent_check", "reload_checked"],
+        must_hit=["quiescent_check", "reload_checked", "rejected_request"],
+        rule="Same operator sequences as C10; after every answered request, at the next quiescent point, the state shown by get, the persisted record, the in-memory table and the per-state gauges are compared for every task known to any of them; per-target reference counts and stop functions against the running tasks; registered streams against running tasks; the store is searched for leftovers of deleted tasks; after a restart every persisted task must be in memory and Running or Paused per its auto-start flag.",
+        assumptions=[S_REAL, "transition legality is judged only for requests during which no fault was injected and for tasks not hit by a crash in flight"],
+    ),
+    "C19": dict(
+        rig="S", variants=["etcd", "mysql"], runs=dict(quick=1500, thorough=50000), panic_is_violation=True,
+        nontrivial_probes=["rejected_request", "reject_side_effect_checked"],
+        must_hit=["rejected_request", "reject_side_effect_checked"],
+        rule="Operator sequences as in C10 with 3-8 raw requests inserted at random positions: 38 hand-written malformed / semantically invalid bodies (names with separators, undecodable and foreign positions, negative limits, conflicting targets, wrong JSON types) and random byte strings, 8% with a non-POST method. Every response must parse as JSON with code 200/400/500 (405 for non-POST); invalid creates must not be answered 200; for every rejected request without an injected fault the bookkeeping snapshot and the complete store content before and after are compared.",
+        assumptions=[S_REAL, "a panic of the child process counts as a violation (no recover in the harness)", "the before-image is taken only when no seam call is in flight"],
+    ),
+    "C18": dict(
+        rig="S", variants=["etcd", "mysql"], runs=dict(quick=600, thorough=20000),
+        nontrivial_probes=["rejected_request", "quiescent_check"],
+        must_hit=["rejected_request", "quiescent_check"],
+        rule="Operator sequences as in C10 with credential canaries in every create (token, or user+password); log level debug, file descriptor 1 of the child redirected to a file that is scanned after the run; every HTTP response body (operator requests and the harness' own get calls) is scanned as it is produced; store / downstream faults and one crash+reload in part of the runs.",
+        assumptions=[S_REAL, "Kafka downstream (SASL secrets) is not simulated: librdkafka's poller thread keeps a bubble from going idle", "only what the service writes through its zap logger to stdout is seen"],
+    ),
+    "C05": dict(
+        rig="S", variants=["etcd", "mysql"], runs=dict(quick=1200, thorough=40000),
+        nontrivial_probes=["checkpoint_checked", "liveness_checked", "reg_resume"],
+        must_hit=["checkpoint_checked", "liveness_checked", "reg_resume", "restart"],
+        rule="Source histories of 4-16 rounds (inserts/deletes on 1-3 collections x 1-2 shards, collection created / dropped mid-run, op messages, ticks) published one event per scheduler action while 1-2 tasks replicate to 1-2 downstreams; downstream write rejections, store errors (before/after apply) and DDL rejections at any parked call; pause/resume; 0-2 crashes with restart from the persisted world. After every store change each persisted checkpoint is compared with the downstream's acknowledgement log; every stream registration is compared with what it skips; at the end (fault-free drain) every message of a running task's streams must have been acknowledged.",
+        assumptions=[S_REAL, "the replication domain of a stream starts at its first registration without a position (latest) or at the start position it was first given"],
+    ),
+    "C06": dict(
+        rig="S", variants=["etcd", "mysql"], runs=dict(quick=1200, thorough=40000), panic_is_violation=True,
+        nontrivial_probes=["task_paused_by_failure", "liveness_checked"],
+        must_hit=["task_paused_by_failure", "liveness_checked"],
+        rule="Same scenarios as C05 without crashes; the first-acknowledgement order per stream must be gap-free, a Paused task must show a reason, tasks end Paused only if a failure was injected, the four state views agree at the end, and the process must survive.",
+        assumptions=[S_REAL, "a panic of the child process counts as a violation"],
+    ),
+})
